@@ -265,7 +265,9 @@ def run(ck):
                 ket_ax, bra_ax = out.index(ket_letter[0]), out.index(bra_letter[0])
                 batch_ax = [i for i, l in enumerate(out) if l not in (ket_letter[0], bra_letter[0])]
                 # matrix multiplied into the factor tensor
-                nc = [c for c in p.calls if c[0].endswith("cplx.numpy") and within(c, "rotate_rho_probs")]
+                # (the conversion made where the matrix meets the factor tensor: calls written in rotate_rho_probs itself - a helper
+                # may convert other things, e.g. the unitaries)
+                nc = [c for c in p.calls if c[0].endswith("cplx.numpy") and "rotate_rho_probs" in str(c[3])]
                 if len(nc) != 1:
                     ck.undecided("C04.R2", inst + ":matrix [%s]" % pn, rrp.site(), "the matrix multiplied into the factor tensor is not converted by one cplx.numpy call")
                     continue
@@ -333,7 +335,7 @@ def run(ck):
                 if terms_v.shape is not None and tot.shape is not None and len(terms_v.shape) == 3:
                     ck.check(tot.shape == (2,) + tuple(terms_v.shape[2:]), "C04.R2", inst + ":sum over the expansion axis only [%s]" % _c(p), rpi.site(),
                              "summand %s -> result %s: the reduction does not remove exactly the expansion axis" % (terms_v.shape, tot.shape))
-                nc = [c for c in p.calls if c[0].endswith("cplx.numpy") and within(c, "rotate_psi_inner_prod")]
+                nc = [c for c in p.calls if c[0].endswith("cplx.numpy") and "rotate_psi_inner_prod" in str(c[3])]
                 if which == "model" and nc:
                     pc = [c for c in p.calls if c[0].endswith(".psi") and within(c, "rotate_psi_inner_prod")]
                     vt_ = v.term if isinstance(v, VTens) else None
@@ -377,6 +379,56 @@ def run(ck):
             t = T.subst(t, _gather_first) if t is not None else None
             idxs = [a for a in (t.all_atoms() if t is not None else []) if isinstance(a, T.App) and a.op == "index" and len(a.args[1]) == 4]
             cand = [a for a in idxs if a.args[1][1] == ("slice", None, None, None)]
+            lp = t.single_atom() if t is not None else None
+            if len(cand) != 1 and isinstance(lp, T.App) and lp.op == "loop" and len(lp.args) >= 3 and isinstance(lp.args[2], T.Poly):
+                # the factor accumulated one rotated site at a time: in every iteration the unitary that is looked up (the letter) and
+                # the entry that is read (outcome, input) must belong to the same site
+                body = lp.args[2]
+                sels = [a for a in body.all_atoms() if isinstance(a, T.App) and a.op == "select"]
+                gath = [a for a in body.all_atoms() if isinstance(a, T.App) and a.op == "index" and len(a.args[1]) == 2 and all(isinstance(q, tuple) and q and q[0] == "adv" for q in a.args[1])
+                        and any(isinstance(z, T.App) and z.op == "select" for z in (a.args[0].all_atoms() if hasattr(a.args[0], "all_atoms") else []))]
+
+                def _site_of(ix):
+                    """x[..., s] -> s for an index term; None when it is not of that form"""
+                    a_ = ix.single_atom() if hasattr(ix, "single_atom") else None
+                    if isinstance(a_, T.App) and a_.op == "index" and len(a_.args[1]) == 2 and a_.args[1][0] == "ellipsis" and isinstance(a_.args[1][1], tuple) and a_.args[1][1][0] == "adv":
+                        return a_.args[0], a_.args[1][1][1]
+                    return None
+
+                def _letter_pos(key):
+                    """position in the basis string of the letter `key`: basis[y] -> y, basis[sites][i] -> sites[i]"""
+                    a_ = key.single_atom() if hasattr(key, "single_atom") else None
+                    if not (isinstance(a_, T.App) and a_.op == "index" and len(a_.args[1]) == 1):
+                        return None
+                    inner = a_.args[0].single_atom() if hasattr(a_.args[0], "single_atom") else None
+                    y = a_.args[1][0]
+                    y = y[1] if isinstance(y, tuple) and y and y[0] == "adv" else y
+                    if isinstance(inner, T.Sym) and inner.name == "arr:basis":
+                        return T.P(y) if not isinstance(y, T.Poly) else y
+                    if isinstance(inner, T.App) and inner.op == "index" and len(inner.args[1]) == 1 and isinstance(inner.args[1][0], tuple) and inner.args[1][0][0] == "adv":
+                        b0 = inner.args[0].single_atom() if hasattr(inner.args[0], "single_atom") else None
+                        if isinstance(b0, T.Sym) and b0.name == "arr:basis":
+                            return T.app("index", inner.args[1][0][1], (y,))
+                    return None
+
+                keys = {_letter_pos(a.args[0]) for a in sels}
+                sites_used, roles = set(), []
+                for g in gath:
+                    for q in g.args[1]:
+                        so = _site_of(q[1])
+                        sites_used.add(so[1] if so else None)
+                    r0, r1 = _site_of(g.args[1][0][1]), _site_of(g.args[1][1][1])
+                    roles.append((r0[0] if r0 else None, r1[0] if r1 else None))
+                if sels and gath and None not in keys and None not in sites_used and len(keys) == 1 and len(sites_used) == 1:
+                    kpos, spos = next(iter(keys)), next(iter(sites_used))
+                    ck.check(kpos == spos, "C04.R3", "per-site loop: the unitary of a site's own letter [%s]" % _c(p), rbs.site(),
+                             "in the loop over the rotated sites the entry is read at site %s of the outcome / input states, but the unitary is the one of the letter at position %s of the basis string: "
+                             "sites and letters are paired by position in two sequences of different lengths (a Z before a rotated site shifts every later letter)" % (str(spos)[:90], str(kpos)[:90]),
+                             key="C04.R3|_rotate_basis_state|letter of another site")
+                    okr = all(a0 is not None and a1 is not None and "states" in a0.syms() and not any(isinstance(z, T.App) and z.op in ("upd", "repeat") for z in a0.all_atoms())
+                              and any(isinstance(z, T.App) and z.op in ("upd", "repeat") for z in a1.all_atoms()) for a0, a1 in roles)
+                    ck.check(True if okr else None, "C04.R3", "per-site loop: U[outcome, input] [%s]" % _c(p), rbs.site(), "row / column of the unitary entry are not recognised as (measured outcome, expanded input)")
+                    continue
             if len(cand) != 1:
                 ck.undecided("C04.R3", "unitary entries [%s]" % _c(p), rbs.site(), "the gather Us[site, :, outcome, input] was not found")
                 continue
@@ -724,7 +776,15 @@ def _kron_instance(ck, prog, km, ns):
             conditioned = {k for k in range(ns) if any(len(c) > 3 and getattr(c[3], "term", None) is not None and c[3].term.syms() & {"u%dr" % k, "u%di" % k} for c in p.conds)}
             if t is None or t != x.term or (not steps and assumed_id != set(range(ns))):
                 v_ = _kron_vectorised(y.term if isinstance(y, VTens) else None, ns)
-                if v_ is None:
+                lost = [e for e in p.effects if e.kind == "write" and getattr(e.obj, "maybe_copy", False) and getattr(e.obj, "reshape_of", None) is not None]
+                if v_ is None and lost and isinstance(y, VTens) and y.term is not None and not any(s_.startswith("u") and s_[1:-1].isdigit() for s_ in y.term.syms()):
+                    # the returned tensor carries nothing of the matrices, and the sweep was written into the reshape of a tensor
+                    # whose memory layout is the caller's: for a layout that is not contiguous that reshape is a copy
+                    ck.violation("C04.R4", inst + ":the sweep reaches the returned tensor", lost[0].site,
+                                 "the sweep is written in place into reshape(...) of a clone of the given state; clone keeps the memory layout of its source, so for a state that is not "
+                                 "contiguous (an explicitly given matrix passed as a transposed view) reshape returns a copy, the update is lost and the state comes back unrotated",
+                                 key="C04.R4|_kron_mult|update written into a reshape copy")
+                elif v_ is None:
                     ck.undecided("C04.R4", inst + ":block updates", site, "the result is not a chain of in-place block updates of a copy of the input")
                 elif v_[0] == "ok":
                     ck.ok("C04.R4", inst + ":site s is contracted along the axis of stride 2^(n-1-s) (vectorised sweep)", site, strides=v_[1])
@@ -843,12 +903,28 @@ def _kron_vectorised(term, ns):
             pos = len(dims) - 2
         tail = dims[pos + 1:]
         if tail and tail[-1] == -1:
-            tail = tail[:-1]  # the trailing batch axis
-        if any(d < 0 for d in tail):
-            return None
-        st = 1
-        for d in tail:
-            st *= d
+            # the inferred last axis takes whatever the named axes leave over: the remaining row digits (if any) and the trailing
+            # batch axes - the rows are 2^ns, so the contracted axis has stride 2^ns / (product of the axes up to and including it)
+            head = dims[:pos + 1]
+            if any(d <= 0 for d in head) or any(d < 0 for d in tail[:-1]):
+                return None
+            hp = 1
+            for d in head:
+                hp *= d
+            if hp <= 0 or (2 ** ns) % hp:
+                return None
+            st = (2 ** ns) // hp
+            tp = 1
+            for d in tail[:-1]:
+                tp *= d
+            if st % tp:
+                return None
+        else:
+            if any(d < 0 for d in tail):
+                return None
+            st = 1
+            for d in tail:
+                st *= d
         if strides.get(k, st) != st:
             return None
         strides[k] = st
